@@ -149,6 +149,10 @@ def c08(tier, seed):
     m = ef.full_model("weight-changes", ["S1", "F4"], ["S1", "F4"], grid, ev, tg, lats=(0, L), delays=(0, 1), fees="free",
                       maxsteps=3, relative=True, invariants=["LedgerReplay"])
     ef.run_models(rep, [m], {"pos", "track_trades"})
+    # code -> spec at the level of the whole environment: long random episodes of a real TradingEnv on a dyadic grid,
+    # validated line by line by TLC (EnvLedgerTrace.tla)
+    from . import envledger_check
+    envledger_check.validate(rep, "C08", 8 if tier == "quick" else 120, seed, tier)
     return rep.finish()
 
 
@@ -191,6 +195,10 @@ def c15(tier, seed):
     run_models(rep, c15_models(tier), clauses_of("C15"))
     from . import walkforward
     walkforward.check(rep, tier)
+    # code -> spec at the level of the whole environment: long random episodes of a real TradingEnv on a dyadic grid,
+    # validated line by line by TLC (EnvLedgerTrace.tla)
+    from . import envledger_check
+    envledger_check.validate(rep, "C15", 8 if tier == "quick" else 120, seed, tier)
     return rep.finish()
 
 
